@@ -62,9 +62,13 @@ func (p *pp) Print(args ...interface{}) {
 	defer p.buf.SetMode(p.buf.GetMode())
 	np := newPrinter()
 	np.buf = p.buf
+	// The nested printer writes into the same buffer: it is subject to
+	// the same enclosing Safe()/Unsafe().
+	np.override = p.override
 	np.doPrint(args)
 	p.buf = np.buf
 	np.buf = buffer{}
+	np.override = noOverride
 	np.free()
 }
 
@@ -72,9 +76,12 @@ func (p *pp) Printf(format string, arg ...interface{}) {
 	defer p.buf.SetMode(p.buf.GetMode())
 	np := newPrinter()
 	np.buf = p.buf
+	// See Print() above.
+	np.override = p.override
 	np.doPrintf(format, arg)
 	p.buf = np.buf
 	np.buf = buffer{}
+	np.override = noOverride
 	np.free()
 }
 
